@@ -151,6 +151,13 @@ fn run<const D: usize>(case: &Case, log: &mut CaseLog) {
                 log.class("filtered_ill_conditioned");
                 return;
             }
+            // far from the origin the circumcentre itself is only representable to an ulp of its
+            // coordinates; centre / circumradius (computed through the centre) get that absolute slack
+            let maxabs = pts.iter().flatten().fold(0.0f64, |m, x| m.max(x.abs()));
+            let rs = 16.0 * (D as f64) * maxabs * f64::EPSILON;
+            if maxabs >= 65536.0 {
+                log.class("far_from_origin(>=2^16)");
+            }
             let obtuse = {
                 // circumcentre outside the simplex <=> some barycentric sign negative; approximate via distance
                 let sp = ScaledPoints::new(&{
@@ -177,7 +184,7 @@ fn run<const D: usize>(case: &Case, log: &mut CaseLog) {
                 }
             };
             check("simplex_volume", simplex_volume(&lp).map_err(|e| e.to_string()), ex.vol, REL, log);
-            check("circumradius", circumradius(&lp).map_err(|e| e.to_string()), ex.r, REL, log);
+            check("circumradius", circumradius(&lp).map_err(|e| e.to_string()), ex.r, REL + rs / ex.r, log);
             if D >= 2 {
                 check("inradius", inradius(&lp).map_err(|e| e.to_string()), ex.inr, REL, log);
                 for skip in 0..=D {
@@ -189,7 +196,7 @@ fn run<const D: usize>(case: &Case, log: &mut CaseLog) {
             match circumcenter(&lp) {
                 Ok(c) => {
                     let err: f64 = c.coords().iter().zip(&ex.centre).map(|(a, b)| (a - b) * (a - b)).sum::<f64>().sqrt();
-                    if !(err <= REL * ex.r) {
+                    if !(err <= REL * ex.r + rs) {
                         bad(log, "inaccurate", "circumcenter", format!("circumcenter {:?} vs exact {:?} (error {:e}, R {:e}) for {desc}", c.coords(), ex.centre, err, ex.r));
                     }
                 }
@@ -204,7 +211,7 @@ fn run<const D: usize>(case: &Case, log: &mut CaseLog) {
                 let mut cmp = |name: &str, a: Option<f64>, b: Option<f64>, log: &mut CaseLog| {
                     log.evals += 1;
                     if let (Some(a), Some(b)) = (a, b) {
-                        if rel_err(b, a) > 1e-10 {
+                        if rel_err(b, a) > 1e-10 + if name == "circumradius" { 2.0 * rs / ex.r } else { 0.0 } {
                             bad(log, "not_permutation_invariant", name, format!("{name}: {a:e} vs {b:e} under vertex permutation {:?} of {desc}", p));
                         }
                     }
@@ -224,7 +231,7 @@ fn run<const D: usize>(case: &Case, log: &mut CaseLog) {
                     let mut cmp = |name: &str, a: Option<f64>, b: Option<f64>, log: &mut CaseLog| {
                         log.evals += 1;
                         if let (Some(a), Some(b)) = (a, b) {
-                            if rel_err(b, a) > 1e-9 {
+                            if rel_err(b, a) > 1e-9 + if name == "circumradius" { 2.0 * rs / ex.r } else { 0.0 } {
                                 bad(log, "not_translation_invariant", name, format!("{name}: {a:e} vs {b:e} after translating {desc} by {:?}", case.shift));
                             }
                         }
@@ -263,7 +270,7 @@ fn run<const D: usize>(case: &Case, log: &mut CaseLog) {
                         let same = dt.vertices().all(|(_, v)| pts.iter().any(|p| p.as_slice() == v.point().coords().as_slice()));
                         if same {
                             let ck = dt.cells().next().unwrap().0;
-                            check("radius_ratio", radius_ratio(dt.as_triangulation(), ck).map_err(|e| e.to_string()), ex.r / ex.inr, REL, log);
+                            check("radius_ratio", radius_ratio(dt.as_triangulation(), ck).map_err(|e| e.to_string()), ex.r / ex.inr, REL + rs / ex.r, log);
                             check("normalized_volume", normalized_volume(dt.as_triangulation(), ck).map_err(|e| e.to_string()), ex.vol / ex.avg_edge.powi(D as i32), REL, log);
                         }
                     }
@@ -334,11 +341,16 @@ fn strategy(dim: usize) -> BoxedStrategy<Case> {
                 }
                 _ => raw.iter().map(|r| r.iter().map(|&v| v as f64 / 16.0).collect()).collect(),
             };
-            if fam != 3 && aux[3] % 4 == 0 {
-                let t = 2f64.powi((aux[3] / 4 % 10) as i32);
+            if fam != 3 && aux[3] % 4 <= 1 {
+                // translate by a power of two (up to 2^40, exact: coordinates carry <= 10 fractional
+                // bits and are < 2^11) along a generated subset of the axes
+                let t = 2f64.powi((aux[3] / 4 % 41) as i32) * if aux[1] & 1 == 0 { 1.0 } else { -1.0 };
+                let mask = if aux[3] % 4 == 0 { u8::MAX } else { aux[0] | 1 };
                 for p in pts.iter_mut() {
-                    for c in p.iter_mut() {
-                        *c += t;
+                    for (j, c) in p.iter_mut().enumerate() {
+                        if mask & (1 << (j % 8)) != 0 {
+                            *c += t;
+                        }
                     }
                 }
             }
